@@ -2,8 +2,8 @@
       generic in the arithmetic [Ops F].  NO proofs here.
 
       gjk_intersection_libccd   distance3d/gjk/_gjk_libccd.py   _gjk 54-86, _refine_simplex 95-102,
-                                _line_segment 112-136, _triangle 139-178, _triangle_ab 181-192,
-                                _tetrahedron 195-247, _rearrange_simplex_to_triangle 250-261
+                                _line_segment 112-136, _triangle 139-180, _triangle_ab 183-194,
+                                _tetrahedron 197-249, _rearrange_simplex_to_triangle 252-263
       mpr_intersection          distance3d/mpr.py   21-50, _discover_portal 120-158,
                                 _find_origin_ray 161-175, the two single-support helpers 178-203,
                                 _search_direction_perpendicular_to_plane_containing_v012 206-212,
@@ -61,8 +61,10 @@ Section Libccd.
   (** _triangle: v = [v0; v1; v2], A = v[2], B = v[1], C = v[0] *)
   Definition triangle (v0 v1 v2 : V3 F) : refine_result :=
     let A := v2 in let B := v1 in let C := v0 in
-    if abs (fst (point_to_triangle origin A B C)) <? EPS_SQRT then RContact
-    else if vabs_all_lt (vsub A B) EPS || vabs_all_lt (vsub A C) EPS then RNoContact
+    (* commit bdb9fa3: the degenerated-triangle test comes first (point_to_triangle divides by zero
+       when two of its points coincide) *)
+    if vabs_all_lt (vsub A B) EPS || vabs_all_lt (vsub A C) EPS then RNoContact
+    else if abs (fst (point_to_triangle origin A B C)) <? EPS_SQRT then RContact
     else
       let AO := vneg A in
       let AB := vsub B A in
